@@ -16,7 +16,7 @@ NAMES = ['a', 'b', 'dflt', 'default']
 QUERIES = ['a', 'b', 'dflt', 'default', 'zzz']
 CONFIGS = ['unset', 'ctor-name', 'ctor-object', 'option-name', 'ctor-empty',
            'ctor-undefined-name', 'option-undefined-name',
-           'ctor-name-option-other']
+           'ctor-name-option-other', 'option-empty', 'option-none']
 BODIES = ['leaf', 'expr', 'ref']
 
 
@@ -63,6 +63,11 @@ def run_table(ctx, config, body):
     elif config == 'option-undefined-name':
         conf.set_override('policy_default_rule', 'nope', group='oslo_policy')
         dname = 'nope'
+    elif config in ('option-empty', 'option-none'):
+        conf.set_override('policy_default_rule',
+                          '' if config == 'option-empty' else None,
+                          group='oslo_policy')
+        dname = None            # no default rule is configured at all
     elif config == 'ctor-name-option-other':
         conf.set_override('policy_default_rule', 'b', group='oslo_policy')
         ctor = dname = 'dflt'
